@@ -771,14 +771,14 @@ pub mod dom {
         (1_000..=10_800_000_000_000).contains(&dt)
     }
     pub fn t0(t: i64) -> bool {
-        t.abs() <= 1_000_000_000_000
+        t.unsigned_abs() <= 1_000_000_000_000
     }
     /// start time of a history of at most 64 intervals of at most 3 h: anything that cannot overflow
     pub fn t0_span(t: i64) -> bool {
         t <= i64::MAX - 700_000_000_000_000
     }
     pub fn grid(u: (i8, i8)) -> bool {
-        u.0.abs() <= 3 && u.1.abs() <= 3
+        u.0.unsigned_abs() <= 3 && u.1.unsigned_abs() <= 3
     }
 }
 
